@@ -72,11 +72,32 @@ Seqs(n) == IF n = 0 THEN {<<>>} ELSE {Append(h, c) : h \in Seqs(n - 1), c \in DO
 BProgs == UNION {Seqs(n) : n \in 1..L}
 BText(h) == LET J[i \in 0..Len(h)] == IF i = 0 THEN "" ELSE J[i - 1] \o "\n" \o Pool[h[i]] IN J[Len(h)]
 
+(* ---------------- U: values of the same major type but another structure --------------- *)
+\* whatever the outcome (accepted with conversion, rejected when compiled, error at run time), every table stays uniform and
+\* every tuple keeps its structure: judged by the invariants of the dump only
+UTexts == {
+  "TU = tab(2, tup(1, \"a\")); forall E in TU loop E = tup(\"s\", 1); end loop; print typeof(TU.at(0)@1);",
+  "TU = tab(2, tup(1, \"a\")); forall E in TU loop E = tup(1, \"a\", 2); end loop;",
+  "TU = tab(2, tup(1, \"a\")); forall E in TU loop E = tup(2.5, \"a\"); end loop;",
+  "TU = tab(2, tup(1, \"a\")); W = tup(\"s\", 1); forall E in TU loop E = W; end loop;",
+  "TT = tab(2, tab(1, 1)); forall E in TT loop E = tab(1, tab(1, 1)); end loop; print typeof(TT.at(0).at(0));",
+  "TT = tab(2, tab(1, 1)); forall E in TT loop E = tab(1, \"s\"); end loop;",
+  "TT = tab(2, tab(1, 1)); W = tab(1, 2.5); forall E in TT loop E = W; end loop;",
+  "TI = tab(2, 1); forall E in TI loop E = 2.5; end loop;", "TD = tab(2, 1.5); forall E in TD loop E = 2; end loop;",
+  "TI = tab(2, 1); forall E in TI loop E = num(); end loop;", "TS = tab(2, \"a\"); forall E in TS loop E = raw(\"b\"); end loop;",
+  "TU = tab(2, tup(1, \"a\")); TU.at(0).set@1(\"s\");", "TU = tab(2, tup(1, \"a\")); R = TU.at(0); R.set@2(5); TU.put(1, R);",
+  "TT = tab(2, tab(1, 1)); TT.at(0).put(0, \"s\");", "TT = tab(2, tab(1, 1)); TT.at(0).concat(tab(1, 1));", "TT = tab(2, tab(1, 1)); TT.at(1).concat(2.5);" }
+
 VARIABLE p
 Init == p \in {[kind |-> "E", c |-> c] : c \in 0..((Cardinality(Exprs) - 1) \div ChunkSize)} \cup {[kind |-> "B", h |-> h] : h \in BProgs}
+              \cup {[kind |-> "U", t |-> t] : t \in UTexts}
 Next == UNCHANGED p
 Scenario(q) ==
-  IF q.kind = "E" THEN
+  IF q.kind = "U" THEN
+    [prop |-> "C02", key |-> "U",
+     steps |-> << [op |-> "exec", ctx |-> 0, free |-> TRUE, text |-> q.t], [op |-> "dump", ctx |-> 0],
+                  [op |-> "step", ctx |-> 1, free |-> TRUE, text |-> q.t], [op |-> "dump", ctx |-> 1] >>]
+  ELSE IF q.kind = "E" THEN
     LET lo == q.c * ChunkSize + 1   hi == IF lo + ChunkSize - 1 > Len(ExprSeq) THEN Len(ExprSeq) ELSE lo + ChunkSize - 1 IN
     [prop |-> "C02", key |-> "E",
      steps |-> << [op |-> "exec", ctx |-> 0, free |-> TRUE, text |-> Prelude] >> \o
